@@ -723,7 +723,11 @@ func (analyser *BurndownAnalysis) MergeResults(
 		go func() {
 			defer wg.Done()
 			if len(bar2.PeopleMatrix) == 0 {
-				merged.PeopleMatrix = bar1.PeopleMatrix
+				// copy the rows: the first argument must stay intact
+				merged.PeopleMatrix = make(DenseHistory, len(bar1.PeopleMatrix))
+				for i, row := range bar1.PeopleMatrix {
+					merged.PeopleMatrix[i] = append(make([]int64, 0, len(merged.reversedPeopleDict)+2), row...)
+				}
 				// extend the matrix in both directions
 				for i := 0; i < len(merged.PeopleMatrix); i++ {
 					for j := len(bar1.reversedPeopleDict); j < len(merged.reversedPeopleDict); j++ {
